@@ -17,8 +17,9 @@ class ScriptError(Exception):
 
 
 class OutOfStatement(Exception):
-    """The program uses something the checked statements exclude (arithmetic operand > 4 bytes,
-    an opcode buidl does not implement, several ELSE per IF)."""
+    """The program uses something the checked statements exclude (operand > 4 bytes of an arithmetic /
+    comparison opcode, an opcode buidl does not implement).  Several ELSE per IF are consensus-valid and are
+    executed (each ELSE toggles); an over-long PICK/ROLL index or CLTV/CSV operand is a script error."""
 
 
 def cast_to_bool(b):
@@ -39,6 +40,13 @@ def num_decode(b, maxlen=4):
     if b[-1] & 0x80:
         return -(v & ~(0x80 << (8 * (len(b) - 1))))
     return v
+
+
+def num_decode_strict(b, maxlen=4):
+    """CScriptNum for operands the statements do not restrict: longer than maxlen is a script error."""
+    if len(b) > maxlen:
+        raise ScriptError(f"script number longer than {maxlen} bytes")
+    return num_decode(b, maxlen)
 
 
 def num_encode(v):
@@ -202,9 +210,17 @@ def check_sig_encoding(sig):
         raise ScriptError("sig der")
 
 
-def eval_script(script, stack, checker, sigversion, altstack=None):
+MAX_SCRIPT_SIZE = 10000
+MAX_SCRIPT_ELEMENT_SIZE = 520
+
+
+def eval_script(script, stack, checker, sigversion, altstack=None, limits=False):
     """Executes `script` (bytes) on `stack` (list, modified in place). Raises ScriptError on failure.
-    sigversion in {"base", "v0", "tap"}."""
+    sigversion in {"base", "v0", "tap"}.
+    limits=True additionally enforces the size limits of EvalScript: a script longer than 10000 bytes (not in
+    tapscript) and any push longer than 520 bytes, executed or not, are script errors."""
+    if limits and sigversion != "tap" and len(script) > MAX_SCRIPT_SIZE:
+        raise ScriptError("script size")
     ops = parse_script(script)
     if altstack is None:
         altstack = []
@@ -216,6 +232,8 @@ def eval_script(script, stack, checker, sigversion, altstack=None):
             raise ScriptError("verif")
         if op in DISABLED:
             raise ScriptError("disabled opcode")
+        if limits and data is not None and len(data) > MAX_SCRIPT_ELEMENT_SIZE:
+            raise ScriptError("push size")
         if fexec and data is not None:
             stack.append(bytes(data))
             continue
@@ -239,9 +257,7 @@ def eval_script(script, stack, checker, sigversion, altstack=None):
         if op == 103:
             if not vf:
                 raise ScriptError("unbalanced conditional")
-            if else_seen[-1]:
-                raise OutOfStatement("several ELSE for one IF")
-            else_seen[-1] = True
+            else_seen[-1] = True  # informational only: every ELSE toggles, an IF may have several
             vf[-1] = not vf[-1]
             continue
         if op == 104:
@@ -318,7 +334,7 @@ def eval_script(script, stack, checker, sigversion, altstack=None):
             stack.append(stack[-2])
         elif op in (121, 122):
             need(stack, 2)
-            n = num_decode(stack[-1])
+            n = num_decode_strict(stack[-1], 4)
             stack.pop()
             if n < 0 or n >= len(stack):
                 raise ScriptError("pick/roll range")
@@ -461,14 +477,14 @@ def eval_script(script, stack, checker, sigversion, altstack=None):
                 stack.append(b"\x01" if success else b"")
         elif op == 177:
             need(stack, 1)
-            n = num_decode(stack[-1], 5)
+            n = num_decode_strict(stack[-1], 5)
             if n < 0:
                 raise ScriptError("negative locktime")
             if not checker.check_locktime(n):
                 raise ScriptError("unsatisfied locktime")
         elif op == 178:
             need(stack, 1)
-            n = num_decode(stack[-1], 5)
+            n = num_decode_strict(stack[-1], 5)
             if n < 0:
                 raise ScriptError("negative sequence")
             if not (n & (1 << 31)):
@@ -659,15 +675,15 @@ def _verify_input(tx, idx, spent, curve, relaxed=False):
         raise ScriptError("witness unexpected")
 
 
-def run_program(script, stack=None, altstack=None, tx=None, idx=0, sigversion="base"):
-    """Helper for C07: execute a bare script with a given context.
+def run_program(script, stack=None, altstack=None, tx=None, idx=0, sigversion="base", limits=True):
+    """Helper for C07: execute a bare script with a given context (size limits enforced unless limits=False).
     Returns ("ok", stack, altstack) | ("fail",) ; raises OutOfStatement."""
     tx = tx or {"version": 1, "locktime": 0, "segwit": False, "ins": [{"prev": b"\x00" * 32, "index": 0, "script": b"", "seq": 0xFFFFFFFF}], "outs": []}
     checker = Checker(tx, idx, [(0, b"")] * len(tx["ins"]))
     st = list(stack or [])
     alt = list(altstack or [])
     try:
-        eval_script(script, st, checker, sigversion, alt)
+        eval_script(script, st, checker, sigversion, alt, limits=limits)
     except ScriptError:
         return ("fail",)
     return ("ok", st, alt)
@@ -698,6 +714,24 @@ def selftest():
     assert not T([0x00, 0x63, 0x7E, 0x68, 0x51])  # disabled even when not executed
     r = run_program(bytes([0x51, 0x52, 0x53, 0x54, 0x55, 0x56, 0x71]))  # 2ROT
     assert r[1] == [b"\x03", b"\x04", b"\x05", b"\x06", b"\x01", b"\x02"], r
+    # several ELSE per IF: every ELSE toggles
+    assert T([0x00, 0x63, 0x67, 0x51, 0x67, 0x00, 0x68])  # 0 IF ELSE 1 ELSE 0 ENDIF
+    assert T([0x51, 0x63, 0x00, 0x67, 0x00, 0x67, 0x51, 0x68])  # 1 IF 0 ELSE 0 ELSE 1 ENDIF
+    assert not T([0x51, 0x63, 0x51, 0x67, 0x51, 0x67, 0x00, 0x68])  # 1 IF 1 ELSE 1 ELSE 0 ENDIF
+    assert not T([0x00, 0x64, 0x51, 0x67, 0x51, 0x67, 0x00, 0x68])  # 0 NOTIF 1 ELSE 1 ELSE 0 ENDIF
+    # script numbers: PICK/ROLL index at most 4 bytes, CLTV/CSV operand at most 5 bytes
+    assert T([0x51, 0x04, 0, 0, 0, 0, 0x79])  # 1 <00000000> PICK
+    assert not T([0x51, 0x05, 0, 0, 0, 0, 0, 0x79])  # 1 <0000000000> PICK
+    assert not T([0x51, 0x05, 0, 0, 0, 0, 0, 0x7A])  # ... ROLL
+    _tx = {"version": 2, "locktime": 200, "segwit": False, "ins": [{"prev": b"\x00" * 32, "index": 0, "script": b"", "seq": 20}], "outs": []}
+    TT = lambda script: (lambda r: r[0] == "ok" and bool(r[1]) and cast_to_bool(r[1][-1]))(run_program(bytes(script), tx=_tx))
+    assert TT([0x05, 100, 0, 0, 0, 0, 0xB1]) and not TT([0x06, 100, 0, 0, 0, 0, 0, 0xB1])  # CLTV
+    assert TT([0x05, 10, 0, 0, 0, 0, 0xB2]) and not TT([0x06, 10, 0, 0, 0, 0, 0, 0xB2])  # CSV
+    # size limits (run_program enforces them): push of 520 / 521 bytes, also unexecuted; script of 10000 / 10001 bytes
+    assert T([0x4D, 0x08, 0x02] + [1] * 520) and not T([0x4D, 0x09, 0x02] + [1] * 521)
+    assert T([0x00, 0x63, 0x4D, 0x08, 0x02] + [1] * 520 + [0x68, 0x51]) and not T([0x00, 0x63, 0x4D, 0x09, 0x02] + [1] * 521 + [0x68, 0x51])
+    _big = ([0x4D, 0x08, 0x02] + [1] * 520 + [0x75]) * 19  # 19 x (push 520, DROP) = 9956 bytes
+    assert T(_big + [0x61] * 43 + [0x51]) and not T(_big + [0x61] * 44 + [0x51])
     r = run_program(bytes([0x51, 0x52, 0x53, 0x7B]))  # ROT
     assert r[1] == [b"\x02", b"\x03", b"\x01"]
     r = run_program(bytes([0x51, 0x52, 0x7D]))  # TUCK
